@@ -202,6 +202,19 @@ def patient_entity_new(given):
     return ev
 
 
+def location_extra(assoc):
+    """An additional, not associated location context state (legal: e.g. a pre-associated next location)."""
+    def ev(p):
+        _need(p, LOC)
+        ca = _pm().ContextAssociation
+        with p.mdib.context_state_transaction() as tr:
+            st = tr.mk_context_state(LOC)
+            st.ContextAssociation = ca.PRE_ASSOCIATION if assoc == 'Pre' else ca.NO_ASSOCIATION
+            st.LocationDetail.PoC = 'extra'
+            st.Identification = [_pm().InstanceIdentifier('urn:loc', extension_string='extra')]
+    return ev
+
+
 def _patient_states(p):
     return sorted(p.mdib.context_states.descriptor_handle.get(PAT, []), key=lambda s: s.Handle)
 
@@ -483,6 +496,10 @@ EVENTS = [
     ('delete+create-sibling', delete_and_create_sibling),
     ('delete(PAT)', delete(PAT)),
     ('delete-subtree(SC)', delete('SC.mds0')),
+]
+EVENTS += [
+    ('location-extra(Pre)', location_extra('Pre')),
+    ('location-extra(No)', location_extra('No')),
 ]
 STASH_EVENTS = [
     ('stash(CH)', stash_entity(CH)),
